@@ -52,7 +52,7 @@ func (r *RuleResult) ok(sample string) {
 // fail records a violated obligation.
 func (r *RuleResult) fail(key, pos, msg string, path ...string) {
 	r.Obligations++
-	r.Findings = append(r.Findings, Finding{Rule: r.Rule, Key: r.Rule + "|" + key, Pos: pos, Msg: msg, Path: path})
+	r.Findings = append(r.Findings, Finding{Rule: r.Rule, Key: r.Rule + "|" + strings.ReplaceAll(key, " ", "_"), Pos: pos, Msg: msg, Path: path})
 }
 
 func (r *RuleResult) broken(format string, a ...interface{}) {
